@@ -28,7 +28,8 @@ HNum(p) ==
 (* ------------------------------ declarative properties ------------------------------ *)
 InRange == left \in (-Half)..Half /\ right \in (-Half)..Half
 HalfCycleApart == (right - left) % K = Half
-AdvancesByIncrement == [][(left' - left) % K = m /\ (right' - right) % K = m]_vars
+\* m is any non-negative number of ticks: a gait frequency above one cycle per control step (m >= K) wraps several times
+AdvancesByIncrement == [][(left' - left) % K = m % K /\ (right' - right) % K = m % K]_vars
 HeightWithinSwing == \A p \in (-Half)..Half : HNum(p) >= 0 /\ HNum(p) <= K * K * K
 HeightVanishesAtMinusPiAndPeaksAtZero == HNum(-Half) = 0 /\ HNum(0) = K * K * K /\ HNum(Half) = 0
 HeightMonotoneOnEachHalf ==
